@@ -675,4 +675,14 @@ def c03_i(ctx: Ctx):
     return res
 
 
-RULES = [c03_a, c03_b, c03_c, c03_d, c03_e, c03_f, c03_g, c03_h, c03_i]
+@rule("C03-j")
+def c03_j(ctx: Ctx):
+    """A schema import files a directory only under the state point its own state point file holds (from C16-n)."""
+    from .c16 import c16_n
+    res = c16_n(ctx)
+    for r in res:
+        r.rule = "C03-j"
+    return res
+
+
+RULES = [c03_a, c03_b, c03_c, c03_d, c03_e, c03_f, c03_g, c03_h, c03_i, c03_j]
